@@ -11,7 +11,7 @@ use crate::{
 
 use async_trait::async_trait;
 use futures::channel::{mpsc, oneshot};
-use futures::{select, FutureExt, StreamExt};
+use futures::{select_biased, FutureExt, StreamExt};
 use parking_lot::Mutex;
 
 use std::collections::HashMap;
@@ -111,7 +111,10 @@ impl MultiPeerBackend for PubSocketBackend {
         async_rt::task::spawn(async move {
             let mut stop_receiver = stop_receiver.fuse();
             loop {
-                select! {
+                // The stop signal comes first: once this connection's entry has been replaced
+                // (a peer registered again under the same identity) or removed, nothing this
+                // task still reads may be applied to the entry that is now under that identity.
+                select_biased! {
                      _ = stop_receiver => {
                          break;
                      },
